@@ -2,8 +2,8 @@
   Driver verbs of the server connection-lifecycle family (stateful).
 
   C11 (`ConnGuard`):
-    case <n> conn max=<m> http=<0|1> ws=<0|1> obs=<0|1> path=<server|tower|towerset|towermw|towerclone>   -> case
-    cg harrive <c> <new|reuse> | cg hdone <c> | cg habort <c> <fin|rst>
+    case <n> conn max=<m> http=<0|1> ws=<0|1> obs=<0|1> path=<server|tower|towerset|towermw|towerclone|lowlevel|lowserve>   -> case
+    cg harrive <c> <new|reuse|close|batch> | cg hdone <c> | cg habort <c> <fin|rst> | cg idle <c>
     cg wstart <c> <handshakeOk 0|1> | cg wdone <c> | cg wfail <c> <drop|reset>
     cg wclose <c> <close|closecall|halfcall|reset|resetcall|proto|ping|pingcall|stop>
   (the extra tokens say HOW the harness produces the event on the wire: fresh / kept-alive
@@ -62,7 +62,8 @@ def parseCloseHow (s : String) : Option ConnGuard.CloseHow :=
 
 def parseCgOp (ws : List String) : Option ConnGuard.Op :=
   match ws with
-  | ["harrive", c, mode] => if mode == "new" || mode == "reuse" then c.toNat?.map .httpArrive else none
+  | ["harrive", c, mode] =>
+    if mode == "new" || mode == "reuse" || mode == "close" || mode == "batch" then c.toNat?.map .httpArrive else none
   | ["hdone", c] => c.toNat?.map .httpDone
   | ["habort", c, mode] => if mode == "fin" || mode == "rst" then c.toNat?.map .httpAbort else none
   | ["wstart", c, ok] =>
@@ -80,7 +81,8 @@ def parseCgOp (ws : List String) : Option ConnGuard.Op :=
 
 def validPath (tok : String) : Bool :=
   match cnKv "path" tok with
-  | some p => p == "server" || p == "tower" || p == "towerset" || p == "towermw" || p == "towerclone"
+  | some p => p == "server" || p == "tower" || p == "towerset" || p == "towermw" || p == "towerclone" ||
+      p == "lowlevel" || p == "lowserve"
   | none => false
 
 /-! ### C10: trace checker
@@ -91,7 +93,7 @@ the invisible steps the event presupposes (`Stop.flushOps`, `Stop.windDownOps`,
 `Stop.windDownAllOps`).  `ok` = possible, `impossible` = the implementation did something the
 model cannot (a model/implementation disagreement).
 
-    case <n> stop cap=<B> path=<server|tower>
+    case <n> stop cap=<B> path=<server|tower|lowlevel> [opts=<ping|closehdr|-,…>]
     st open <c> <http|ws> <ok|refused>     st send <c> <k>        st sub <c> <k>
     st start <k>   st ret <k>   st cancel <k>   st resp <k>   st gone <c>   st eof <c>
     st stop <ok|already>   st drop   st resolved   st end
@@ -138,13 +140,60 @@ def stopVerb (s : Stop.State) (ws : List String) : Option (Stop.State × String)
   | ["send", c, k] =>
     match c.toNat?, k.toNat? with
     | some c, some k =>
+      -- bytes written into a socket that is no connection of the machine (see `popen`) go nowhere
+      if !Stop.hasConn s c then some (s, "ok") else
       let r := Stop.step s (.callSend c k)
       some (r.1, cnOkIf (r.2 == .ok))
+    | _, _ => none
+  | ["send", c, k, kind] =>
+    -- block / blockpanic: a blocking handler (one that panics after its release is answered with an
+    -- error object by the library: still an answer); batch: ONE message carrying the calls k and k+1000
+    match c.toNat?, k.toNat? with
+    | some c, some k =>
+      if kind == "block" || kind == "blockpanic" || kind == "big" then
+        let r := Stop.step s (.callSend c k)
+        some (r.1, cnOkIf (r.2 == .ok))
+      else if kind == "batch" then
+        let r1 := Stop.step s (.callSend c k)
+        let r2 := Stop.step r1.1 (.callSend c (k + 1000))
+        some (r2.1, cnOkIf (r1.2 == .ok && r2.2 == .ok))
+      else none
     | _, _ => none
   | ["sub", c, k] =>
     match c.toNat?, k.toNat? with
     | some _, some _ => some (s, "ok")
     | _, _ => none
+  | ["sub", c, k, "chatty"] =>
+    match c.toNat?, k.toNat? with
+    | some _, some _ => some (s, "ok")
+    | _, _ => none
+  | ["popen", c, res] =>
+    -- a plain TCP connect during the wind-down (nothing verified by the harness)
+    match c.toNat? with
+    | some c =>
+      if res == "ok" then
+        -- the TCP handshake is completed by the kernel from the listen backlog; if the accept loop is
+        -- gone nobody will ever serve it: then it is no connection of the machine at all (a call
+        -- STARTING on it would be `impossible` below, its call being unknown)
+        some ((Stop.step s (.connOpen c .http)).1, "ok")
+      else if res == "refused" then
+        let s1 := (Stop.step s .acceptExit).1
+        some (s1, cnOkIf (!Stop.enabled s1 (.connOpen c .http)))
+      else none
+    | none => none
+  | ["isstopped", r] =>
+    -- `is_stopped()` = no `StopHandle` is left
+    if r == "1" then
+      let s1 := Stop.run s (Stop.windDownAllOps s)
+      some (s1, cnOkIf (Stop.noReceivers s1))
+    else if r == "0" then some (s, cnOkIf (!Stop.noReceivers s))
+    else none
+  | ["hclone"] => some (s, "ok")
+  | ["hdropc"] => some (s, "ok")
+  | ["gone", c, "half"] =>
+    c.toNat?.map fun c =>
+      let r := Stop.step s (.peerGone c)
+      (r.1, cnOkIf (r.2 == .ok))
   | ["start", k] =>
     k.toNat?.map fun k =>
       match stopCallConn s k with
@@ -173,13 +222,16 @@ def stopVerb (s : Stop.State) (ws : List String) : Option (Stop.State × String)
         let s1 := (Stop.step s (.httpClose x.id)).1
         (s1, cnOkIf (stopCallPhase s1 k == some .dropped))
       | none => (s, "impossible")
-  | ["resp", k] => k.toNat?.map fun k => (s, cnOkIf (stopCallPhase s k == some .onWire))
+  | ["resp", k] =>
+    k.toNat?.map fun k =>
+      if (stopCallConn s k).any (·.peerGone) then (s, "ok") else (s, cnOkIf (stopCallPhase s k == some .onWire))
   | ["gone", c] =>
     c.toNat?.map fun c =>
       let r := Stop.step s (.peerGone c)
       (r.1, cnOkIf (r.2 == .ok))
   | ["eof", c] =>
     c.toNat?.map fun c =>
+      if !Stop.hasConn s c then (s, "ok") else
       let s1 := Stop.run s (Stop.windDownOps c)
       (s1, cnOkIf (s1.conns.any (fun x => x.id == c && x.phase == .closed)))
   | ["stop", res] =>
@@ -213,7 +265,7 @@ def stopVerb (s : Stop.State) (ws : List String) : Option (Stop.State × String)
 
 def validStopPath (tok : String) : Bool :=
   match cnKv "path" tok with
-  | some p => p == "server" || p == "tower"
+  | some p => p == "server" || p == "tower" || p == "lowlevel"
   | none => false
 
 def connVerb (st : ConnSt) (ws : List String) : Option (ConnSt × String) :=
@@ -222,6 +274,11 @@ def connVerb (st : ConnSt) (ws : List String) : Option (ConnSt × String) :=
     match cnKvNat "cap" cap, validStopPath p with
     | some cap, true => some ({ st with stop := Stop.init cap, stopSeen := [] }, "case")
     | _, _ => some (st, "bad-op")
+  | ["case", _, "stop", cap, p, o] =>
+    -- opts=<ping|closehdr|-,…>: harness-side configuration the machine does not depend on
+    match cnKvNat "cap" cap, validStopPath p, cnKv "opts" o with
+    | some cap, true, some _ => some ({ st with stop := Stop.init cap, stopSeen := [] }, "case")
+    | _, _, _ => some (st, "bad-op")
   | "case" :: _ :: "stop" :: _ => some (st, "bad-op")
   | "st" :: rest =>
     match stopVerb st.stop rest with
@@ -243,6 +300,11 @@ def connVerb (st : ConnSt) (ws : List String) : Option (ConnSt × String) :=
       some ({ st with cg := ConnGuard.init { max := max, enableHttp := eh, enableWs := ew }, obs := obs }, "case")
     | _, _, _, _, _ => some (st, "bad-op")
   | "case" :: _ :: "conn" :: _ => some (st, "bad-op")
+  | ["cg", "idle", c] =>
+    -- a TCP connection on which nothing is sent: no request reaches `call`, the guard is untouched
+    match c.toNat? with
+    | some _ => some (st, s!"idle {availRepr st.obs st.cg.avail}")
+    | none => some (st, "bad-op")
   | ["cg", "end"] =>
     some (st, s!"final {availRepr st.obs st.cg.avail} active={ConnGuard.active st.cg}")
   | "cg" :: rest =>
